@@ -3,7 +3,7 @@ EXTENDS Exec
 MC_TabCols == [t1 |-> <<"g", "o", "x">>, t2 |-> <<"g", "y">>]
 MC_ColVals == [g |-> {NULL, 0, 1}, o |-> {0, 1, 2}, x |-> {NULL, 0, 1, 2}, y |-> {NULL, 1}]
 MC_Kind == [g |-> "s", h |-> "s", h2 |-> "s", src |-> "s",
-            p |-> "b", q |-> "b", o |-> "n", k |-> "n", x |-> "n", y |-> "n", z |-> "n", w |-> "n", v |-> "n", m |-> "q", t |-> "s", x2 |-> "n", nosuch |-> "n"]
+            p |-> "b", q |-> "b", o |-> "n", k |-> "n", x |-> "n", y |-> "n", z |-> "n", w |-> "n", v |-> "n", m |-> "q", t |-> "s", kk |-> "s", vv |-> "n", x2 |-> "n", nosuch |-> "n"]
 MCB_TabCols == [t1 |-> <<"o", "x", "y">>]
 MCB_ColVals == [o |-> {0, 1}, x |-> {NULL, 1}, y |-> {NULL, 2}]
 MCD_ColVals == [o |-> {0, 1}, x |-> {1}, y |-> {NULL, 2}]
